@@ -314,6 +314,17 @@ def check_tags(ck):
     with tempfile.TemporaryDirectory() as tmp:
         path = f"{tmp}/data.txt"
         open(path, "w").write("file text\n")
+        # a binary file is taken byte for byte: carriage returns, NUL and high bytes included
+        bpath = f"{tmp}/data.bin"
+        raw = b"\x89PNG\r\n\x1a\n\x00\xff line\r\nend\r"
+        open(bpath, "wb").write(raw)
+        ob = ck.run_impl("impl_cli.py", [{"cases": [{"files": [f"component:\n  type: t:T\n  c: !BinaryFile {bpath}\n"],
+                                                      "args": ["--set", f"component.d=!BinaryFile {bpath}"], "env": None}]}])[0]
+        o = ob["obs"][0] if "obs" in ob else {"k": "crash"}
+        n += 1
+        want = {"__bytes__": raw.decode("latin1")}
+        if o.get("k") != "launch" or o["cfg"].get("c") != want or o["cfg"].get("d") != want:
+            ck.fail_input("C16:tags", f"!BinaryFile did not give the file's bytes {raw!r}: {o}", {"observed": o})
         for text, expect in TAG_CASES:
             ob = ck.run_impl("impl_cli.py", [{"cases": [{"files": [text.format(path=path)], "args": [], "env": None,
                                                           "extra_env": {"VERIF_TAG_VAR": "from-env"}}]}])[0]
